@@ -43,7 +43,7 @@ theorem toFetchID_inj (a b : Nat × Nat) : toFetchID a = toFetchID b ↔ a = b :
 
 /-! ## small facts on the two read functions -/
 
-theorem lookup_cons' (dp : DocsPositions) (k id : SV.Collector.ID) (p : DocPos) :
+theorem lookup_cons_ite (dp : DocsPositions) (k id : SV.Collector.ID) (p : DocPos) :
     List.lookup id ((k, p) :: dp) = if id = k then some p else dp.lookup id := by
   by_cases h : id = k
   · subst h; simp [List.lookup]
@@ -89,7 +89,7 @@ theorem cons_setMultiple_collector_eq_wpath (dp : DocsPositions) (ps : List (SV.
         simp only [hi]
         have h' : mapOfCollector ((i, p) :: dp) = mapOfWPath (ps ++ [(i, p)]) := by
           funext id
-          simp only [mapOfCollector, mapOfWPath, lookup_cons', lookupPos_append_one]
+          simp only [mapOfCollector, mapOfWPath, lookup_cons_ite, lookupPos_append_one]
           have := congrFun h id
           simp only [mapOfCollector, mapOfWPath] at this
           by_cases hid : id = i
@@ -150,7 +150,7 @@ theorem cons_setMultiple_collector_eq_fetch (f : DocPos → Nat) (dp : DocsPosit
         intro id
         have := h id
         simp only [mapOfCollector, mapOfFetch] at this ⊢
-        rw [lookup_cons', find_append_one]
+        rw [lookup_cons_ite, find_append_one]
         by_cases hid : id = i
         · subst hid; simp [hnone]
         · have hne : ¬ toFetchID i = toFetchID id := fun e => hid ((toFetchID_inj _ _).mp e).symm
@@ -236,7 +236,7 @@ theorem cons_setMultiple_collector_rename (f : DocPos → DocPos) (hf : ∀ a b,
     | nil => rfl
     | cons e dp ih =>
       obtain ⟨k, p⟩ := e
-      simp only [List.map_cons, lookup_cons', ih]
+      simp only [List.map_cons, lookup_cons_ite, ih]
       split <;> rfl
   induction ids generalizing dp pos with
   | nil => simp [SV.Collector.setMultiple]
